@@ -1,6 +1,6 @@
 (** One entry point for the correspondence: checker id -> case -> verdict. *)
 From Coq Require Import ZArith List Bool.
-From Comet Require Import Base.Parse Check.C19 Check.C18 Check.VecHist Check.Codec Check.BM25Hist Check.MetaHist Check.HybridHist Check.StoreHist Check.LockHist Check.HNSWHist.
+From Comet Require Import Base.Parse Check.C19 Check.C18 Check.VecHist Check.Codec Check.BM25Hist Check.MetaHist Check.HybridHist Check.StoreHist Check.LockHist Check.HNSWHist Check.C20.
 Import ListNotations.
 Open Scope Z_scope.
 
@@ -29,6 +29,9 @@ Definition dispatch (id : Z) (s : list Z) : list Z :=
   else if id =? 800 then run_P chk_storehist s
   else if id =? 1700 then run_P chk_lockhist s
   else if id =? 1200 then run_P chk_hnswhist s
+  else if id =? 2001 then run_P chk_kmeans s
+  else if id =? 2002 then run_P chk_quant s
+  else if id =? 2003 then run_P chk_train_twice s
   else [8].
 
 (** used by cases.v: the list of case numbers whose verdict is not OK *)
